@@ -114,6 +114,25 @@ pub fn dispatch(_m: &mut Machine, name: &str, args: &[&str]) -> Option<R> {
             let fin = args.len() > 5 && args[5] == "fin";
             Ok(obs_bytes(&do_expand(args[0], &prk, &info, l, dirty.as_deref(), fin)?))
         })(),
+        // pbkdf2_after_reset <digest> <password> <salt> <c> <dklen> <bytes fed and abandoned by reset before>
+        "pbkdf2_after_reset" => (|| {
+            need(args, 6)?;
+            let pw = arg_bytes(args[1])?;
+            let salt = arg_bytes(args[2])?;
+            let c = arg_u64(args[3])? as u32;
+            let dklen = arg_usize(args[4])?;
+            let pre = arg_bytes(args[5])?;
+            let (k, outlen) = split_kind(args[0]);
+            let mut out = vec![0xA5u8; dklen];
+            with_digest_kind!(k, outlen, d => {
+                use cryptoxide::mac::Mac;
+                let mut mac = Hmac::new(d, &pw);
+                mac.input(&pre);
+                mac.reset();
+                pbkdf2(&mut mac, &salt, c, &mut out)
+            });
+            Ok(obs_bytes(&out))
+        })(),
         // pbkdf2_twice <digest> <password> <salt1> <salt2> <c> <dklen>
         "pbkdf2_twice" => (|| {
             need(args, 6)?;
@@ -219,6 +238,26 @@ pub fn dispatch(_m: &mut Machine, name: &str, args: &[&str]) -> Option<R> {
             let mut tag = vec![0xA5u8; taglen];
             argon2::argon2_at(&params, &pw, &salt, &key, &aad, &mut tag);
             Ok(obs_bytes(&tag))
+        })(),
+        // argon2_index <m> <p> <pass> <slice> <index> <same_lane 0|1> <j1>,<j1>,... (hook): reference-block index for each J1
+        "argon2_index" => (|| {
+            need(args, 7)?;
+            let mm = arg_u64(args[0])? as u32;
+            let p = arg_u64(args[1])? as u32;
+            let pass = arg_u64(args[2])? as u32;
+            let slice = arg_u64(args[3])? as u32;
+            let index = arg_u64(args[4])? as u32;
+            let same = arg_u64(args[5])? != 0;
+            let params = match argon2_params("d", 0x13, pass + 1, p, mm) {
+                Ok(p) => p,
+                Err(e) => return Ok(format!("ERR:{}", e)),
+            };
+            let mut out: Vec<String> = Vec::new();
+            for tok in args[6].split(',') {
+                let j1: u32 = tok.parse().map_err(|_| "bad-j1".to_string())?;
+                out.push(format!("{}", argon2::verif_index_alpha(&params, pass, slice, index, j1, same)));
+            }
+            Ok(out.join(","))
         })(),
         // argon2_setter <parallelism|iterations|version|memory_kb> <value>
         "argon2_setter" => (|| {
